@@ -1,4 +1,6 @@
 import SparseSpace.Lemmas.Combi
+import SparseSpace.Lemmas.CombiStd
+import SparseSpace.Lemmas.CombAdaptive
 /-!
 # C01 — the adaptive combination scheme is always a valid inclusion–exclusion scheme
 
@@ -64,5 +66,26 @@ theorem reachable_scheme_valid (dim : Nat) (lmin lmax : Int) (hd : 1 ≤ dim) (h
 example : (runOps (CS.init 2 3 1) [[1,3],[2,2]]).active = [[3,1],[1,4],[2,3]] := by decide
 example : domSum (runOps (CS.init 2 3 1) [[1,3],[2,2]]).coeffs [1,2] = 1 := by decide
 example : domSum (runOps (CS.init 2 3 1) [[1,3],[2,2]]).coeffs [3,2] = 0 := by decide
+
+/-- **closed form = fresh adaptive scheme**: the non-adaptive `(-1)^q·C(dim-1,q)` scheme returned by
+`getCombiScheme(lmin, lmax)` and the scheme of a freshly initialised adaptive `CombiScheme` contain the same
+(level vector, coefficient) pairs (as multisets — what comparing the sorted lists observes) -/
+theorem std_perm_init (dim : Nat) (lmin lmax : Int) (hd : 1 ≤ dim) (h0 : 0 ≤ lmin) (h : lmin ≤ lmax) :
+    (stdScheme dim lmin lmax).Perm (CS.init dim lmax lmin).coeffs :=
+  SparseSpace.std_perm_init dim lmin lmax hd h0 h
+
+/-- the same coefficient-wise -/
+theorem std_eq_init_lookup (dim : Nat) (lmin lmax : Int) (hd : 1 ≤ dim) (h0 : 0 ≤ lmin) (h : lmin ≤ lmax) (l : LV) :
+    lookup (stdScheme dim lmin lmax) l = lookup (CS.init dim lmax lmin).coeffs l :=
+  SparseSpace.std_eq_init_lookup dim lmin lmax hd h0 h l
+
+/-- consequence used by C02/C03/C07: on every state satisfying the invariant the combination of any family `F`
+that only depends on `l ⊓ k` (k in the index set) collapses to `F k` -/
+theorem combination_collapses {V : Type} [AddCommGroup V] (s : CS) (h : SchemeInv s)
+    (k : LV) (hkI : k ∈ I s) (F : LV → V) (hF : ∀ p ∈ s.coeffs, F p.1 = F (meet p.1 k)) :
+    (s.coeffs.map fun p => p.2 • F p.1).sum = F k :=
+  SparseSpace.adaptive_collapse s h k hkI F hF
+
+example : (stdScheme 3 1 3).Perm (CS.init 3 3 1).coeffs := std_perm_init 3 1 3 (by decide) (by decide) (by decide)
 
 end SparseSpace.C01
